@@ -461,6 +461,13 @@ func RenderParamText(b Base, e *expr.Expression) string {
 	return s
 }
 
+// RangParamTextOf: the text the range template writes for an operand text and the
+// parameters of the RANGE'S OWN bounds (the kind of the first of them selects the shape).
+func RangParamTextOf(left, right string, boundParams []any) string {
+	s, _ := rangParam(left, right, boundParams)
+	return s
+}
+
 // SerializeParamsParams: the parameters serializeParams collects for a value.
 func SerializeParamsParams(b Base, in any) []any {
 	_, p, _ := b.serializeParams(in)
@@ -501,6 +508,7 @@ func SerializeParamsText(b Base, in any) string {
 //@   ensures[string-leaf-is-one-param] err == nil && e != nil && expr.LeafOp(e.Op) && e.Right == nil && IsStringVal(e.Left) ==> OneStringParam(params, StringOf(e.Left))
 //@   ensures[errors-propagate] e != nil ==> ParamStepErr(b, e, err)
 //@   ensures[pattern-parameter-translated] err == nil && e != nil && e.Op == expr.Like ==> len(params) >= 1 && IsStringVal(params[len(params)-1]) && StringOf(params[len(params)-1]) == PatternParam(LeafString(e.Right))
+//@   ensures[x-range-text] err == nil && e != nil && e.Op == expr.Range ==> s == RangParamTextOf(SerializeParamsText(b, e.Left), SerializeParamsText(b, e.Right), SerializeParamsParams(b, e.Right))
 //@   ensures[x-pattern-match-text] err == nil && e != nil && e.Op == expr.Like ==> s == LikeParamText(Wrap(b, e.Left, SerializeParamsText(b, e.Left)), Wrap(b, e.Right, SerializeParamsText(b, e.Right)), IsRegexpPattern(LeafString(e.Right)))
 
 //@ func (Base).serializeBoundParam
